@@ -248,6 +248,65 @@ func c04Load(cs c04Case, docs []string, asDocs bool) (loadResult, string) {
 	return r, root
 }
 
+// c04SequencesComplete compares, for every service (and its build section), each attribute the target document
+// gives as a list of strings with the []string-like field of that YAML name in the loaded project.
+func c04SequencesComplete(target string, p *types.Project) *Failure {
+	tree, err := parseYAMLTree(target)
+	if err != nil {
+		return nil
+	}
+	svcs, _ := tree["services"].(map[string]any)
+	check := func(where string, attrs map[string]any, v reflect.Value) *Failure {
+		t := v.Type()
+		for key, val := range attrs {
+			l, ok := val.([]any)
+			if !ok || len(l) == 0 {
+				continue
+			}
+			distinct := map[string]bool{}
+			allStrings := true
+			for _, e := range l {
+				s, ok := e.(string)
+				if !ok {
+					allStrings = false
+					break
+				}
+				distinct[s] = true
+			}
+			if !allStrings {
+				continue
+			}
+			for i := 0; i < t.NumField(); i++ {
+				if strings.Split(t.Field(i).Tag.Get("yaml"), ",")[0] != key {
+					continue
+				}
+				f := v.Field(i)
+				// (duplicates may or may not be kept, depending on the attribute: between the two counts)
+				if f.Kind() == reflect.Slice && f.Type().Elem().Kind() == reflect.String && (f.Len() < len(distinct) || f.Len() > len(l)) {
+					return failf("c04:sequence-entries-lost:"+key, "%s.%s: the target lists %d distinct entries %v, the merged project has %d: %v", where, key, len(distinct), l, f.Len(), f.Interface())
+				}
+			}
+		}
+		return nil
+	}
+	for name, raw := range svcs {
+		attrs, ok := raw.(map[string]any)
+		s, found := p.Services[name]
+		if !ok || !found {
+			continue
+		}
+		if f := check("services."+name, attrs, reflect.ValueOf(s)); f != nil {
+			return f
+		}
+		if b, ok := attrs["build"].(map[string]any); ok && s.Build != nil {
+			if f := check("services."+name+".build", b, reflect.ValueOf(*s.Build)); f != nil {
+				return f
+			}
+		}
+	}
+	return nil
+}
+
 func c04Check(c *Ctx, cs c04Case) *Failure {
 	for _, r := range cs.Rules {
 		c.Label("rule:" + r)
@@ -288,6 +347,13 @@ func c04Check(c *Ctx, cs c04Case) *Failure {
 	}
 	if rp.Err != nil {
 		return failf("c04:parts-rejected:"+errClass(rp.Err), "the parts fail to load (%v) although the target loads (tag %q, documents=%v)\n%s", rp.Err, cs.Tag, cs.AsDocs, desc())
+	}
+	// absolute reference next to the target/parts comparison (which is blind to what goes wrong on both sides):
+	// nothing is dropped from a sequence of strings - the merged service has as many entries as the target
+	// document lists distinct ones
+	if f := c04SequencesComplete(cs.Target, rp.Project); f != nil {
+		f.Msg += "\n" + desc()
+		return f
 	}
 	a, b := rt.Project, rp.Project
 	a.ComposeFiles, b.ComposeFiles = nil, nil
